@@ -326,6 +326,36 @@ def _obviously_positive(a, depth=0):
     return strict
 
 
+def _conj_pair(a, b):
+    """b is the complex conjugate polynomial of a (then a*b = |a|^2 >= 0); cheap early exit on the first mismatch"""
+    if len(a) != len(b) or not a:
+        return False
+    for m, (x, y) in a.items():
+        c = b.get(m)
+        if c is None or c[0] != x or c[1] != -y:
+            return False
+    return True
+
+
+def _even_common_factor(a):
+    """largest monomial g with even exponents of sign-definite variables (positive / non-negative / sqrt variables;
+    negative exponents only occur for variables that were divided by, i.e. non-zero on this path) dividing every
+    monomial of the Laurent polynomial a;  sqrt(a) = sqrt(g) * sqrt(a / g).  Returns {} if trivial."""
+    g = None
+    for m in a:
+        d = {v: e for v, e in m if REG.kind[v] in 'pns'}
+        if g is None:
+            g = d
+        else:
+            g = {v: min(e, d[v]) for v, e in g.items() if v in d}
+        if not g:
+            return {}
+    # only negative powers are pulled out (normalised intermediate states theta / norm): positive common factors stay
+    # under the root so that a norm remains a *pure* sqrt variable for lazy_cmp / note_norm_parts
+    g = {v: (e - (e % 2)) for v, e in g.items() if e < 0}
+    return {v: e for v, e in g.items() if e != 0}
+
+
 def _positive_monomial(a):
     """single monomial, positive real coefficient, all variables positive"""
     if len(a) != 1:
@@ -371,6 +401,23 @@ class B:
         return f"B({self.t})"
 
 
+class BZ(B):
+    """the comparison ``poly == 0``.  Opt-in (case option ``path_eq_hyps``): when a path takes its true side, the polynomial
+    is also recorded as a hypothesis for ``symx.ideal`` (obligations that hold modulo a polynomial equality of the path)"""
+    __slots__ = ('poly', )
+
+    def __init__(self, t, poly):
+        self.t = t
+        self.poly = poly
+
+    def __bool__(self):
+        ctx = _eng.cur()
+        r = ctx.branch(self.t)
+        if r and ctx.opts.get('path_eq_hyps') and not self.poly.poison:
+            ctx.side_R.append(self.poly)
+        return r
+
+
 def _bt(o):
     if isinstance(o, B):
         return o.t
@@ -392,13 +439,14 @@ def _mkB(t):
 # ------------------------------------------------------------------------------------------
 class R:
     """complex rational function n/d with canonical sparse numerator / denominator"""
-    __slots__ = ('n', 'd', 'poison', '_z')
+    __slots__ = ('n', 'd', 'poison', '_z', 'nn')
 
-    def __init__(self, n, d=None, poison=False):
+    def __init__(self, n, d=None, poison=False, nn=False):
         self.n = n
         self.d = d
         self.poison = poison
         self._z = None
+        self.nn = nn  # syntactically known to be real and >= 0 (sum / product of |x|^2, sqrt, positive symbols, constants >= 0)
 
     # -- construction
     @staticmethod
@@ -406,7 +454,8 @@ class R:
         if isinstance(o, R):
             return o
         if isinstance(o, (bool, np.bool_, int, float, complex, Fraction, np.number)):
-            return R(_pconst(o))
+            n = _pconst(o)
+            return R(n, nn=(not n) or (n[_ONE][1] == 0 and n[_ONE][0] > 0))
         if isinstance(o, I):
             t = z3.simplify(o.t)
             if z3.is_int_value(t):
@@ -418,7 +467,7 @@ class R:
     @staticmethod
     def var(name, kind='r', is_input=False):
         i = REG.var(name, kind, is_input)
-        return R({((i, 1), ): (1, 0)})
+        return R({((i, 1), ): (1, 0)}, nn=kind in ('p', 'n'))
 
     # -- predicates
     def is_const(self):
@@ -461,7 +510,7 @@ class R:
         if self.poison or o.poison:
             return POISON
         if self.d is None and o.d is None:
-            return R(_padd(self.n, o.n, sign))
+            return R(_padd(self.n, o.n, sign), nn=sign > 0 and self.nn and o.nn)
         if self.d is not None and o.d is not None and self.d == o.d:
             return R(_padd(self.n, o.n, sign), self.d)._norm()
         sd = self.d if self.d is not None else {_ONE: (1, 0)}
@@ -495,7 +544,7 @@ class R:
             return POISON
         n = _pmul(self.n, o.n)
         if self.d is None and o.d is None:
-            return R(n)
+            return R(n, nn=(self.nn and o.nn) or _conj_pair(self.n, o.n))
         if self.d is None:
             d = o.d
         elif o.d is None:
@@ -537,10 +586,17 @@ class R:
             nz = None
         if nz is not True:
             # fork on denominator == 0 (numpy would give inf/nan there)
-            iszero = (self == 0)
+            cur = _eng.cur()
+            if nz is False and len(self.n) > 1 and cur.opts.get('named_zero_tests') and hasattr(cur, 'named_zero'):
+                iszero = cur.named_zero(self)  # opt-in: `z == 0` with z := denominator defined aside (linear branch context)
+            else:
+                iszero = (self == 0)
             if bool(iszero):
                 return POISON
-        return R(num, self.n)._norm()
+        r = R(num, self.n)._norm()
+        if self.nn and self.d is None:
+            r.nn = True  # 1/x for x >= 0, x != 0 on this path
+        return r
 
     def __truediv__(self, o):
         o = R.lift(o)
@@ -619,7 +675,10 @@ class R:
         return (self - c) * R({_ONE: (0, Fraction(-1, 2))})
 
     def abs2(self):
-        return (self * self.conjugate()).real
+        r = (self * self.conjugate()).real
+        if not r.poison:
+            r.nn = True
+        return r
 
     def __abs__(self):
         if self.poison:
@@ -627,8 +686,12 @@ class R:
         if self.is_const():
             return R(_pconst(abs(self.const())))
         if self.is_real():
-            if self.d is None and _positive_monomial(self.n):
+            if self.nn or (self.d is None and _positive_monomial(self.n)):
                 return self
+            if _eng.cur().opts.get('lazy_abs'):
+                # opt-in per case: |x| = sqrt(x*x) as a sqrt variable instead of a fork on the sign (keeps a
+                # non-linear sign condition out of the path condition when only `|x| > tol` is asked afterwards)
+                return (self * self).sqrt()
             # fork on the sign keeps polynomials canonical
             if bool(self >= 0):
                 return self
@@ -643,6 +706,19 @@ class R:
         if self.d is not None and _obviously_positive(self.d):
             # sqrt(n/d) = sqrt(n)/sqrt(d) for d > 0
             return R(self.n).sqrt() * R(self.d).sqrt().inv()
+        if self.d is None and REG.sqrt_def and len(self.n) > 1:
+            # radicand with negative powers of a sqrt variable w (w != 0 was forked at the division that produced them):
+            # sqrt(x) = sqrt(x * w**(2k)) / w**k  keeps radicands free of Laurent terms (w*w is rewritten to its radicand)
+            worst = None
+            for m in self.n:
+                for v, e in m:
+                    if e < 0 and v in REG.sqrt_def and (worst is None or e < worst[1]):
+                        worst = (v, e)
+            if worst is not None:
+                v, e = worst
+                k = (-e + 1) // 2
+                xw = self * R({((v, 2 * k), ): (1, 0)})
+                return xw.sqrt() * R({((v, -k), ): (1, 0)})
         if self.is_const():
             c = self.const()
             if c < 0:
@@ -662,8 +738,20 @@ class R:
                 fr = Fraction(x)
                 a, b = math.isqrt(fr.numerator), math.isqrt(fr.denominator)
                 if a * a == fr.numerator and b * b == fr.denominator:
-                    return R({tuple((v, e // 2) for v, e in m): (Fraction(a, b) if b != 1 else a, 0)})
-        return _eng.cur().sqrt_var(self)
+                    return R({tuple((v, e // 2) for v, e in m): (Fraction(a, b) if b != 1 else a, 0)}, nn=True)
+        if self.d is None and len(self.n) > 1:
+            # sqrt(w**-2 * q) = w**-1 * sqrt(q) for a non-zero sqrt / positive variable w (norms of normalised states)
+            g = _even_common_factor(self.n)
+            if g:
+                ginv = tuple(sorted((v, -e) for v, e in g.items()))
+                q = R({_mmul(m, ginv): c for m, c in self.n.items()}, nn=self.nn)
+                r = q.sqrt() * R({tuple(sorted((v, e // 2) for v, e in g.items())): (1, 0)}, nn=True)
+                if not r.poison:
+                    r.nn = True
+                return r
+        w = _eng.cur().sqrt_var(self)
+        w.nn = True  # a square root is >= 0 by definition
+        return w
 
     def log(self):
         return _eng.cur().uf_apply('log', self)
@@ -683,6 +771,12 @@ class R:
     def _cmp(self, o, op):
         if isinstance(o, I):
             o = R.lift(o)
+        if isinstance(o, (float, np.floating)) and o in (float('inf'), float('-inf')):
+            return False if self.poison else bool(op(0, 1 if o > 0 else -1))  # every real value is < +inf and > -inf
+        if self.nn and not self.poison and isinstance(o, (int, float, np.integer, np.floating)) and o == 0:
+            ge, gt = bool(op(1, 0)), bool(op(0, 0))  # (op(positive, 0), op(0, 0)): '>=' -> (T, T), '<' -> (F, F)
+            if ge == gt:
+                return ge  # a syntactically non-negative value: `>= 0` holds, `< 0` does not (no solver query)
         d = self._diff(o)
         if d.poison:
             return False  # numpy: comparisons with nan are False
@@ -729,14 +823,20 @@ class R:
             if d.is_const():
                 c = _const_val(d.n)
                 return c[0] == 0 and c[1] == 0
+            if len(d.n) == 1:
+                # c * w == 0 for a single sqrt variable w  <=>  radicand == 0 (the definition of w is not in the branch context)
+                (m, _c), = d.n.items()
+                if len(m) == 1 and m[0][1] == 1 and m[0][0] in REG.sqrt_def and not (
+                        _eng._CUR[0] is not None and _eng._CUR[0].opts.get('named_zero_tests')):
+                    # (with the opt-in 'named_zero_tests' the linear test `w == 0` is kept: over-approximates the paths)
+                    return R(REG.sqrt_def[m[0][0]]) == 0
         if len(d.n) == 1 and not REG.sqrt_def:
             (m, _c), = d.n.items()
             if all(REG.kind[v] == 'p' for v, _ in m):
                 return False
         re, im = d.z3()
-        if _is_real(d.n):
-            return _mkB(re == 0)
-        return _mkB(z3.And(re == 0, im == 0))
+        b = _mkB(re == 0) if _is_real(d.n) else _mkB(z3.And(re == 0, im == 0))
+        return BZ(b.t, d) if isinstance(b, B) else b
 
     def __ne__(self, o):
         if isinstance(o, np.ndarray):
